@@ -58,8 +58,8 @@ def leaf_replay(pid, L, res):
     cut16 = cuts[16] if cuts else []
     if cuts:
         flags["root_eq_cut16"] = tb(csxlib.eq4(L.root, [sx.terms[c].as_int() for c in cut16]))
-    # adversarial pass: additionally pin the (hash-independent) bit-decomposition wires the model chose
-    free = {k: v for k, v in csxlib.model_free_classes(sx, m).items() if int(k) in sx.limb_of}
+    # adversarial pass: additionally pin every hash-independent wire the model chose (hint wires included)
+    free = csxlib.model_all_classes(sx, m)
     assigns = [
         {"label": "repaired-honest", "mode": "leaf_repair", "named": named, "flags": flags, "cut16": cut16},
         {"label": "repaired-adversarial", "mode": "leaf_repair_adv", "named": named, "flags": flags, "cut16": cut16, "classes": free},
